@@ -209,7 +209,9 @@ def deliver(r, datagrams, step=True):
 def escape_key(ex):
     if isinstance(ex, Hang):
         return "hang:receive-side"
-    return "escape:%s:%s" % (site_of(ex), type(ex).__name__)
+    t = type(ex)
+    name = t.__name__ if t.__module__ == "builtins" else "%s.%s" % (t.__module__, t.__name__)
+    return "escape:%s:%s" % (site_of(ex), name)
 
 
 # ---------------------------------------------------------------- fake datagram kernel
